@@ -113,6 +113,34 @@ pub fn gen_c17(ctx: &mut Ctx) {
             ctx.op(format!("hll.with 6 {} {} 0", b, body));
             ctx.stat("with.rejects", 2);
         }
+        // reads around clear(): count() is a function of the registers at every moment
+        ctx.op("hll.count 2".into());
+        ctx.op("hll.clear 2".into());
+        ctx.op("hll.count 2".into());
+        ctx.op("hll.regs 2".into());
+        ctx.op("hll.empty 2".into());
+        for (hashed, v) in adds.iter().take(3) {
+            ctx.op(format!("{} 2 {}", if *hashed { "hll.addh" } else { "hll.add" }, v));
+            ctx.op("hll.count 2".into());
+        }
+        ctx.op("hll.regs 2".into());
+        // clone_from between sketches of different precision, then both keep evolving
+        let b2 = if b == 18 { 4 } else if ctx.rng.chance(1, 2) { b + 1 } else { 4 + (b + 3) % 15 };
+        ctx.op(format!("hll.new 10 {}", b2));
+        ctx.op(format!("hll.addh 10 {}", ctx.rng.clone().next()));
+        ctx.op("hll.count 10".into());
+        ctx.op("hll.clonefrom 10 1".into());
+        ctx.op("hll.regs 10".into());
+        ctx.op("hll.count 10".into());
+        for _ in 0..6 {
+            let v = ctx.rng.next() >> ctx.rng.below(40);
+            ctx.op(format!("hll.addh 10 {}", v));
+            ctx.op(format!("hll.addh 1 {}", v));
+        }
+        ctx.op("hll.regs 10".into());
+        ctx.op("hll.regs 1".into());
+        ctx.op("hll.count 10".into());
+        ctx.op("hll.count 1".into());
         if ctx.rng.chance(1, 4) {
             let bad = *ctx.rng.pick(&[0u64, 1, 3, 19, 20, 64]);
             ctx.op(format!("hll.new 7 {}", bad));
@@ -138,6 +166,7 @@ pub fn oracle_c17(ops: &[String], ans: &[String]) -> Vec<(usize, String)> {
     let mut bh = ScriptBH::xor();
     let mut sets: HashMap<u64, (u64, BTreeSet<u64>)> = HashMap::new();
     let mut regs_seen: HashMap<u64, String> = HashMap::new();
+    let mut counts: HashMap<(u64, Vec<u64>), String> = HashMap::new();
     for (i, (o, a)) in ops.iter().zip(ans.iter()).enumerate() {
         let t: Vec<&str> = o.split_whitespace().collect();
         match t[0] {
@@ -184,6 +213,36 @@ pub fn oracle_c17(ops: &[String], ans: &[String]) -> Vec<(usize, String)> {
                 let other = sets.get(&id2).map(|x| x.1.clone());
                 if let (Some((_, s)), Some(o)) = (sets.get_mut(&id), other) {
                     s.extend(o);
+                }
+            }
+            "hll.clone" => {
+                // (also `hll.clonefrom j i`, rewritten by gen::oracle)
+                let id: u64 = t[1].parse().unwrap();
+                let id2: u64 = t[2].parse().unwrap();
+                match sets.get(&id).cloned() {
+                    Some(x) => {
+                        sets.insert(id2, x);
+                    }
+                    None => {
+                        sets.remove(&id2);
+                    }
+                }
+            }
+            "hll.count" => {
+                // count() depends only on the registers, hence only on (b, set of hashes added)
+                let id: u64 = t[1].parse().unwrap();
+                if let Some((b, s)) = sets.get(&id) {
+                    let key = (*b, s.iter().cloned().collect::<Vec<u64>>());
+                    if s.is_empty() && a != "0" {
+                        fails.push((i, format!("count() = {} on a sketch whose registers are all zero", a)));
+                    }
+                    match counts.get(&key) {
+                        Some(prev) if prev != a => fails.push((i, format!("count() is not a function of the registers: {} earlier, {} now (b={})", prev, a, b))),
+                        Some(_) => {}
+                        None => {
+                            counts.insert(key, a.clone());
+                        }
+                    }
                 }
             }
             "hll.rebuild" => {
